@@ -121,7 +121,7 @@ fn buf_rows_exact() {
     assert!(n == g.h);
 }
 
-// @ob props=C11 tier=quick kind=B cfg=core-std timeout=1200
+// @ob props=C11 tier=quick kind=B cfg=core-std timeout=2400
 // @fn Inner::iter ; Inner::rows
 // @bound dims <= 2x3 (w >= 1), stride <= 3, data length <= 8 with surplus backing data
 // @clause iter() yields exactly the w*h cells of the view in row-major order
